@@ -4,7 +4,7 @@
     calls that consume nothing.  Only offsets matter here (panics are excluded in LexParse2Proofs.v), so
     iterators are only required to be suffixes of the token list. *)
 From Coq Require Import List NArith ZArith Bool Lia ZifyN ZifyNat ZifyBool.
-From TLV Require Import Lex.LexModel Lex.LexParse1Model Lex.LexParse2Model.
+From TLV Require Import Lex.LexModel Lex.LexProofs Lex.LexParse1Model Lex.LexParse2Model.
 Import ListNotations.
 Open Scope N_scope.
 
@@ -283,7 +283,7 @@ Qed.
 Lemma parseTL2Field_G fuel lo o it : wvalid it -> (lo <= i_off it)%nat -> (8 * mu it + 2 <= fuel)%nat ->
   G lo (spStrict (i_off it)) (parseTL2Field n fuel o it).
 Proof.
-  intros V L Hf. unfold parseTL2Field. g_step. g_step; [exact I|].
+  intros V L Hf. unfold parseTL2Field. g_step. g_step; [|exact I].
   g_step. g_step; [apply fieldNamed_G; try assumption; g_lia|].
   g_step. g_step; [apply fieldNamed_G; try assumption; g_lia|].
   g_step. g_step; [apply fieldNamed_G; try assumption; g_lia|].
@@ -338,7 +338,7 @@ Lemma unionLoop_G cfuel lo o isMono base fuel : forall st it variants, wvalid it
 Proof.
   induction fuel; intros st it variants V L Lb Hf Hc; [lia|]. cbn [unionLoop]. cbv zeta.
   g_step. g_step. g_step.
-  - g_step; [exact I|]. g_step; [apply parseTL2UnionConstructor_G; [assumption|g_lia|g_mu it]|].
+  - g_step; [|exact I]. g_step; [apply parseTL2UnionConstructor_G; [assumption|g_lia|g_mu it]|].
     g_step. g_step. g_step; [|g_go].
     eapply G_conseq; [apply (IHfuel _ rest); [assumption|g_lia|g_lia|g_mu it|g_mu it]|lia|intros; g_lia].
   - g_go.
@@ -347,7 +347,7 @@ Qed.
 Lemma parseTL2UnionType_G fuel lo o it : wvalid it -> (lo <= i_off it)%nat -> (8 * mu it + 2 <= fuel)%nat ->
   G lo (ge (i_off it)) (parseTL2UnionType n fuel it o).
 Proof.
-  intros V L Hf. unfold parseTL2UnionType. cbv zeta. g_step. g_step; [exact I|]. g_step. cbv zeta.
+  intros V L Hf. unfold parseTL2UnionType. cbv zeta. g_step. g_step; [|exact I]. g_step. cbv zeta.
   g_step; [apply parseTL2UnionConstructor_G; [assumption|g_lia|g_mu it]|].
   g_step; [g_go|]. g_step; [g_go|]. g_step; [|g_go].
   g_step; [apply (unionLoop_G fuel lo o _ (i_off it)); [assumption|g_lia|g_lia|g_mu it|g_mu it]|]. g_go.
@@ -361,4 +361,139 @@ Proof.
   g_step; [apply fields_G; assumption|]. g_go.
 Qed.
 
+(** ** declarations *)
+Lemma parseTL2TypeArgumentDeclaration_G lo it o : wvalid it -> (lo <= i_off it)%nat ->
+  G lo (ge (i_off it)) (parseTL2TypeArgumentDeclaration it o).
+Proof.
+  intros V L. unfold parseTL2TypeArgumentDeclaration, targNamed, targCategory. g_go.
+Qed.
+
+Lemma templateArgsLoop_G lo o base k :
+  (forall st rt, wvalid rt -> (lo <= i_off rt)%nat -> (base <= i_off rt)%nat -> G lo (ge base) (k st rt)) ->
+  forall fuel st it, wvalid it -> (lo <= i_off it)%nat -> (base <= i_off it)%nat -> (mu it + 1 <= fuel)%nat ->
+    G lo (ge base) (templateArgsLoop fuel st it o k).
+Proof.
+  intros Hk. induction fuel; intros st it V L Lb Hf; [lia|]. cbn [templateArgsLoop].
+  g_step. g_step.
+  - g_step; [apply parseTL2TypeArgumentDeclaration_G; [assumption|g_lia]|]. g_step. g_step. g_step; [|g_go].
+    apply IHfuel; [assumption|g_lia|g_lia|g_mu it].
+  - g_step. g_step; [|g_go]. apply Hk; [assumption|g_lia|g_lia].
+Qed.
+
+Lemma tdDefn_G fuel lo o isAlias st rt : wvalid rt -> (lo <= i_off rt)%nat -> (8 * mu rt + 2 <= fuel)%nat ->
+  G lo (ge (i_off rt)) (tdDefn n fuel o isAlias st rt).
+Proof.
+  intros V L Hf. unfold tdDefn. destruct isAlias.
+  - g_step; [apply (proj1 (type2_G fuel)); [assumption|g_lia|g_mu rt]|]. g_go.
+  - g_step; [apply parseTL2StructTypeDefinition_G; assumption|]. g_go.
+Qed.
+
+Lemma tdBody_G fuel lo o tokens st rt : wvalid tokens -> (lo <= i_off tokens)%nat -> wvalid rt -> (i_off tokens <= i_off rt)%nat ->
+  (8 * mu tokens + 2 <= fuel)%nat -> G lo (ge (i_off tokens)) (tdBody n fuel o tokens st rt).
+Proof.
+  intros Vt Lt V L Hf. unfold tdBody.
+  assert (HD : forall a st' r, wvalid r -> (i_off tokens <= i_off r)%nat -> G lo (ge (i_off tokens)) (tdDefn n fuel o a st' r)).
+  { intros a st' r Vr Lr. eapply G_conseq; [apply (tdDefn_G fuel lo); [assumption|lia|]|lia|intros; g_lia].
+    pose proof (mu_le tokens r Lr). lia. }
+  g_step. g_step; [apply HD; [assumption|g_lia]|].
+  g_step. g_step; [apply HD; [assumption|g_lia]|]. g_go.
+Qed.
+
+Lemma tdGenerics_G fuel lo o tokens st rt : wvalid tokens -> (lo <= i_off tokens)%nat -> wvalid rt -> (i_off tokens <= i_off rt)%nat ->
+  (8 * mu tokens + 2 <= fuel)%nat -> G lo (ge (i_off tokens)) (tdGenerics n fuel o tokens st rt).
+Proof.
+  intros Vt Lt V L Hf. unfold tdGenerics. g_step. g_step.
+  - cbv zeta. g_step; [apply parseTL2TypeArgumentDeclaration_G; [assumption|g_lia]|]. g_step. g_step. g_step; [|g_go].
+    apply (templateArgsLoop_G lo o (i_off tokens)); [|assumption|g_lia|g_lia|g_mu tokens].
+    intros. apply tdBody_G; assumption.
+  - cbv zeta beta. g_step. g_step; [g_go|]. g_step. g_step; [g_go|]. g_step. g_step; [g_go|].
+    apply tdBody_G; try assumption; g_lia.
+Qed.
+
+Lemma parseTL2TypeDeclarationWithoutName_G fuel lo o it : wvalid it -> (lo <= i_off it)%nat -> (8 * mu it + 2 <= fuel)%nat ->
+  G lo (ge (i_off it)) (parseTL2TypeDeclarationWithoutName n fuel it o).
+Proof.
+  intros V L Hf. unfold parseTL2TypeDeclarationWithoutName. g_step. g_step. g_step.
+  - apply crcPart_G; [assumption| |].
+    + intros. apply tdGenerics_G; try assumption; g_lia.
+    + intros. g_go.
+  - apply tdGenerics_G; try assumption; g_lia.
+Qed.
+
+Lemma parseTL2FuncDeclarationWithoutName_G fuel lo o it : wvalid it -> (lo <= i_off it)%nat -> (8 * mu it + 2 <= fuel)%nat ->
+  G lo (ge (i_off it)) (parseTL2FuncDeclarationWithoutName n fuel it o).
+Proof.
+  intros V L Hf. unfold parseTL2FuncDeclarationWithoutName. g_step. g_step. g_step; [|g_go].
+  apply crcPart_G; [assumption| |intros; g_go].
+  intros rt' Vr Lr. g_step; [apply fields_G; [assumption|g_lia|g_mu it]|]. g_step; [g_go|].
+  g_step. g_step; [|g_go]. cbv zeta. g_step. g_step.
+  - g_step. g_step; [apply (proj1 (type2_G fuel)); [assumption|g_lia|g_mu it]|]. g_go.
+  - g_step; [apply parseTL2StructTypeDefinition_G; [assumption|g_lia|g_mu it]|]. g_step; [g_go|].
+    g_step; [apply (proj1 (type2_G fuel)); [assumption|g_lia|g_mu it]|]. g_go.
+Qed.
+
+Lemma combTail_G lo o base st rest : wvalid rest -> (lo <= i_off rest)%nat -> (base <= i_off rest)%nat ->
+  G lo (ge base) (combTail o st rest).
+Proof. intros V L Lb. unfold combTail. g_go. Qed.
+
+(** a combinator that ends without error has consumed at least its name *)
+Definition okStrict (base : nat) : ostate -> nat -> Prop := fun st off => oerr st = None -> (base < off)%nat.
+
+Lemma parseTL2Combinator_G fuel it : wvalid it -> (8 * mu it + 2 <= fuel)%nat ->
+  G (i_off it) (okStrict (i_off it)) (parseTL2Combinator n fuel it).
+Proof.
+  intros V Hf. unfold parseTL2Combinator. g_step. g_step. cbv zeta. g_step; [|exact I].
+  g_step; [apply annotations_G; [assumption|g_lia|g_mu it]|].
+  destruct (oerr st) eqn:Eo.
+  { cbn [G]. split; [assumption|]. split; [g_lia|]. unfold okStrict. rewrite Eo. discriminate. }
+  g_step. g_step; [apply parseTL2TypeName_G; [assumption|g_lia]|]. g_step. g_step.
+  match goal with |- G _ _ (let '(_, _) := expectProgress ?a ?e in _) => destruct (expectProgress a e) as [okp st1] eqn:EP end.
+  destruct okp; cbn [negb].
+  2:{ cbn [G]. split; [assumption|]. split; [g_lia|]. unfold okStrict, expectProgress in *.
+      destruct (hasProgress st0); [discriminate|]. inversion EP; subst. destruct (isOmitted st0); [cbn; destruct (oerr st0); discriminate|].
+      unfold hasProgress in *. intros HN. unfold isOmitted in *. destruct (sp st0); [|discriminate]. unfold noErr in *. rewrite HN in *. discriminate. }
+  (* the type name was parsed: at least one token consumed *)
+  assert (Hstrict : (i_off it < i_off rest0)%nat).
+  { unfold expectProgress in EP. destruct (hasProgress st0) eqn:HP; [|discriminate].
+    unfold hasProgress in HP. apply andb_true_iff in HP. destruct HP as [HP _]. g_lia. }
+  g_step.
+  { apply parseTL2TypeDeclarationWithoutName_G; [assumption|g_lia|g_mu it]. }
+  assert (HT : forall st' r, wvalid r -> (i_off rest0 <= i_off r)%nat -> G (i_off it) (okStrict (i_off it)) (combTail (t_pos t) st' r)).
+  { intros st' r Vr Lr. eapply G_conseq; [apply (combTail_G (i_off it) _ (i_off rest0)); [assumption|lia|lia]|lia|].
+    intros ? ? ? HH. unfold okStrict, ge in *. intros _. lia. }
+  g_step.
+  - apply HT; [assumption|g_lia].
+  - g_step; [apply parseTL2FuncDeclarationWithoutName_G; [assumption|g_lia|g_mu it]|].
+    g_step; [apply HT; [assumption|g_lia]|]. g_step. apply HT; [assumption|g_lia].
+Qed.
+
+Lemma tl2Loop_G cfuel fuel : forall it, wvalid it -> (mu it + 1 <= fuel)%nat -> (8 * length ts + 2 <= cfuel)%nat ->
+  tl2Loop n fuel cfuel it <> T_nofuel.
+Proof.
+  induction fuel; intros it V Hf Hc; [lia|]. cbn [tl2Loop].
+  unfold exLazy. destruct (expect T_eof it) as [[[] it']|]; try discriminate.
+  pose proof (parseTL2Combinator_G cfuel it V) as HC.
+  destruct (parseTL2Combinator n cfuel it) as [st it2 a| |]; cbn [tbind G] in *; try discriminate.
+  - destruct HC as (V2 & L2 & S2); [unfold mu; lia|]. destruct (oerr st) eqn:Eo; [discriminate|].
+    apply IHfuel; [assumption| |assumption]. unfold okStrict in S2. pose proof (mu_lt it it2 V2 (S2 Eo)). lia.
+  - exfalso. apply HC. unfold mu. lia.
+Qed.
+
+Theorem parseTokens2_fuel : n = n -> parseTokens2 n ts <> T_nofuel.
+Proof.
+  intros _. unfold parseTokens2. apply tl2Loop_G.
+  - split; [reflexivity|cbn; lia].
+  - unfold mu. cbn. lia.
+  - unfold parseFuel. lia.
+Qed.
+
 End Fuel2.
+
+(** * ParseTL2File always terminates within its budget *)
+Theorem parseTL2File_fuel o s : parseTL2File o s <> PR_nofuel.
+Proof.
+  unfold parseTL2File. destruct (LexProofs.front_total o s) as [[e F0]|[toks F0]]; rewrite F0; [discriminate|].
+  pose proof (parseTokens2_fuel toks (lenN s) eq_refl) as H.
+  destruct (parseTokens2 (lenN s) toks) as [st r a| |]; try discriminate; [|contradiction].
+  destruct (oerr st); discriminate.
+Qed.
